@@ -338,3 +338,29 @@ def unit_set_example():
         return {"contract": c, "callees": {"ref:TextFieldFormat.validated": m_validated, "ref:TextFieldFormat.validated_value": m_forbidden, "ref:TextFieldFormat.validate_length": m_forbidden},
                 "assumptions": ["validated() is used through its verified contract (fields.AbstractFieldFormat.validated)"]}
     return ProofUnit("fields.AbstractFieldFormat._set_example", "example setter: the example must pass the field's own validated() (all guards, then the rule)", ["C09", "C10"], make, None)
+
+
+def unit_c03_independent_cids():
+    """bounded: the guards of one CID do not depend on what another CID in the same process accepted before (no state shared between field formats)"""
+    def run(ctx):
+        import io
+        from cutplace import interface, validio, errors
+        def cid(ac, fmt="delimited"):
+            return interface.create_cid_from_string("d,format,%s\nd,allowed characters,%s\n%sf,name,,x,%s\nf,code,,x,%s,Integer\n" % (fmt, ac, "d,line delimiter,lf\n" if fmt == "fixed" else "", "...6" if fmt != "fixed" else "6", "...3" if fmt != "fixed" else "3"))
+        WIDE, NARROW = "32...255", "32...126"
+        def verdicts(c, fmt):
+            rows = [["Müller", "1"], ["Miller", "12"], ["é", "7"], ["abc", "²"]]
+            text = "".join((",".join(r) if fmt != "fixed" else r[0].ljust(6) + r[1].ljust(3)) + "\n" for r in rows)
+            return ["E" if isinstance(x, errors.DataError) else "R" for x in validio.rows(c, io.StringIO(text), on_error="yield")]
+        def check(case):
+            fmt, order = case
+            want = {WIDE: ["R", "R", "R", "E"], NARROW: ["E", "R", "E", "E"]}          # the superscript two is no integer; u-umlaut / e-acute lie outside 32...126
+            cids = {ac: cid(ac, fmt) for ac in order}
+            for ac in order + order:
+                got = verdicts(cids[ac], fmt)
+                if got != want[ac]: return {"expected": "CID allowing %s gives %r whatever ran before" % (ac, want[ac]), "observed": got}
+            return None
+        cases = [(f, o) for f in ("delimited", "fixed") for o in ([WIDE, NARROW], [NARROW, WIDE], [WIDE, WIDE, NARROW])]
+        return [sweep("C03/independence/guards of one CID do not depend on another CID used before in the same process", cases, check, "bounded", "2 formats x 3 orders of a CID allowing 32...255 and one allowing 32...126, each run twice, 4 rows",
+                      describe=lambda c: {"format": c[0], "order of CIDs": c[1]}, function="fields.AbstractFieldFormat.validated over two Cid objects", unit="C03.independence")]
+    return NativeUnit("C03.independence", "bounded: no state shared between the field formats of different CIDs", ["C03", "C08"], run, kind="bounded")
